@@ -45,6 +45,14 @@ LoopOf(q, id) ==
                        If1(Bin(">", Deref(V(Nm("k", id))), I(2)), Break),
                        Mark(4 * id + 3), q[1], q[2]>>)),
           Mark(4 * id)>>)
+\* a loop whose body ends in an unconditional `break' (it runs at most once unless a `continue' fires earlier);
+\* the other exits inside still belong to THIS loop
+LoopOnceOf(q, id) ==
+  Block(<<Set(Nm("k", id), MutE(WInt, I(0))),
+          Loop(Block(<<Asg("+=", V(Nm("k", id)), I(1)),
+                       If1(Bin(">", Deref(V(Nm("k", id))), I(2)), Break),
+                       Mark(4 * id + 3), q[1], q[2], Break>>)),
+          Mark(4 * id)>>)
 WhileOf(q, id) ==
   Block(<<Set(Nm("k", id), MutE(WInt, I(0))),
           While(Bin("<", Deref(V(Nm("k", id))), I(2)),
@@ -66,7 +74,7 @@ Stm(d, inLoop, id) ==
   Leaves(inLoop, id) \cup
   (IF d = 0 THEN {}
    ELSE UNION {{IfEq(p), IfSetInt(p), MatchX(p, id), BlockOf(p), ModOf(p)} : p \in Pairs(d, inLoop, id)}
-        \cup UNION {{LoopOf(q, id), WhileOf(q, id), ForOf(q, id), WhileSetOf(q, id)} : q \in Pairs(d, TRUE, id)})
+        \cup UNION {{LoopOf(q, id), LoopOnceOf(q, id), WhileOf(q, id), ForOf(q, id), WhileSetOf(q, id)} : q \in Pairs(d, TRUE, id)})
 
 Bodies == Stm(D, FALSE, 1)
 
